@@ -52,7 +52,7 @@ class RxRig:
     def feed(self, chunk: bytes):
         try:
             self.p.data_received(bytes(chunk))
-        except Exception as e:  # noqa - an escaping exception is an observable outcome
+        except BaseException as e:  # noqa - an escaping exception is an observable outcome
             self.out.append({"o": "raised", "exc": type(e).__name__})
         ev = {"a": "rx", "bytes": list(chunk), "out": self.out}
         self.out = []
@@ -213,6 +213,32 @@ def run(ctx: Ctx):
             for ch in chunkings(seq):
                 streams.append(ch)
                 metas.append({"src": "enum", "chunks": [c.hex() for c in ch]})
+    # every single insertion of a reserved byte (and of the escape byte before every byte), every single deletion and every single
+    # re-escaping in a few valid frames, framed by a valid frame before and after, delivered whole, split at the edit, and byte by byte
+    bases = [ashref.wire({"type": "DATA", "frm": 0, "retx": 0, "ack": 0, "pl": [126, 17, 0, 125, 19, 24, 26, 93]}),
+             ashref.wire({"type": "DATA", "frm": 0, "retx": 1, "ack": 5, "pl": []}),
+             ashref.wire({"type": "RSTACK", "ver": 2, "code": 11}),
+             ashref.wire({"type": "ACK", "res": 0, "nrdy": 0, "ack": 3})]
+    tail = ashref.wire({"type": "DATA", "frm": 1, "retx": 0, "ack": 0, "pl": [1, 2, 3]})
+    for fr in bases:
+        edits = []
+        for i in range(len(fr) + 1):
+            for b in ALPHA[:6] + [0x7D]:
+                edits.append((i, fr[:i] + bytes([b]) + fr[i:]))
+        for i in range(len(fr)):
+            edits.append((i, fr[:i] + fr[i + 1:]))
+            if fr[i] not in ashref.RESERVED and (i == 0 or fr[i - 1] != 0x7D):
+                edits.append((i, fr[:i] + bytes((0x7D, fr[i] ^ 0x20)) + fr[i + 1:]))
+        for k, (i, ed) in enumerate(edits):
+            st = va + ed + tail
+            cut = len(va) + i
+            variants = [[st], [st[:cut], st[cut:]], [st[:cut + 1], st[cut + 1:]]]
+            if not ctx.quick or k % 4 == 0:
+                variants.append([bytes([x]) for x in st])
+            for ch in variants:
+                ch = [c for c in ch if c]
+                streams.append(ch)
+                metas.append({"src": "edit", "chunks": [c.hex() for c in ch]})
     n_enum = len(streams)
     rng = ctx.rng
     for _ in range(2000 if ctx.quick else 40000):
@@ -232,7 +258,8 @@ def run(ctx: Ctx):
     ctx.evaluations = len(traces)
     ctx.distinct_nontrivial = len({str(m) for m in metas})
     ctx.rule = (f"all streams of up to {L} symbols over {len(symbols)} symbols (9 reserved-rich bytes + 3 whole valid frames) under all "
-                f"2^(n-1) chunkings at symbol boundaries ({n_enum} runs); random concatenations of valid frames with flipped / deleted / "
+                f"2^(n-1) chunkings at symbol boundaries, and every single insertion of a reserved / escape byte, single deletion and single re-escaping in four "
+                f"valid frames between two valid frames, delivered whole / split at the edit / byte by byte ({n_enum} runs); random concatenations of valid frames with flipped / deleted / "
                 "inserted bytes under random chunkings (read sizes 1..120); flag-free garbage runs under tracemalloc; distinct = distinct chunk list")
     ctx.add_sample({"chunks": metas[n_enum + 1]["chunks"], "trace": traces[n_enum + 1]})
     ctx.validate_traces("Trace_AshRx", traces, constants={"MaxAtt": "5", "MaxBuf": str(maxbuf)}, metas=metas,
